@@ -267,9 +267,9 @@ impl<#[cfg(feature = "allocator_api")] A: Allocator> AsyncWriteAt for t_alloc!(V
         pos: u64,
     ) -> BufResult<usize, T> {
         let mut pos = pos as usize;
-        let len = buf.iter_slice().map(|b| b.buf_len()).sum();
+        let len: usize = buf.iter_slice().map(|b| b.buf_len()).sum();
         if pos <= self.len() {
-            self.reserve(len - (self.len() - pos));
+            self.reserve(len.saturating_sub(self.len() - pos));
         } else {
             self.reserve(pos - self.len() + len);
             self.resize(pos, 0);
